@@ -47,6 +47,11 @@ CHECKS = {
             "Scenarios place foldable operands (delays, pins, blink/fade/brightness arguments, range bounds, len(), flash patterns, glyph bitmaps, sensor model names) as folded literal arithmetic and as run-time variables assigned in branches/loops/helpers, including operands whose run-time value differs from the value they had when the line was parsed; both renderings must agree with CPython and with each other.",
             "Same trusted base as C01; open staleness classes (flash_pattern after a conditional re-assignment, device pin by re-assigned name) are excluded and witnessed.",
             "DESIGN.md 3/C03"),
+    "C07": ("exploration",
+            "metamorphic testing (meaning-preserving re-layout validated by ast.dump equality, outcome must be byte-identical) plus hook-based line accounting over generated programs seeded with every statement kind",
+            "Layout: generated programs are re-rendered with random indent units, blank lines, comment lines at any column, trailing comments (also on block headers), trailing whitespace and compact/spacey token spacing; the emitted C++ must not change. Accounting: with the REDUINO_VERIF hook every line the parser consumes without a node is classified; anything outside the fixed no-meaning set is a violation, bucketed by call site + statement kind.",
+            "The silent `unknown -> ignore` path is a recorded finding identified by call site + statement kind (23 kinds listed); any other dropped kind is reported. Line continuations / triple-quoted strings are not generated.",
+            "DESIGN.md 3/C07"),
 }
 
 PENDING = {}
@@ -94,7 +99,7 @@ def main():
         f.write("\n")
 
 
-HOOK_COMMITS = []
+HOOK_COMMITS = ["7c0d80c"]
 
 if __name__ == "__main__":
     main()
